@@ -404,6 +404,17 @@ def c_ts_apply(L, x1, x2, i, idx1, idx2):
     return [float(v) for v in px._buf[:len(x1) + len(x2)]]
 
 
+def c_ts_apply_mfx(L, x1, x2, w1, w2, i, idx1, idx2):
+    """apply_permutation with first-level variances: returns (px, pv)"""
+    q1, q2, r1, r2 = fvec(x1), fvec(x2), fvec(w1), fvec(w2)
+    n = len(x1) + len(x2)
+    px, pv = fvec([0.0] * n), fvec([0.0] * n)
+    a = (ctypes.c_uint * (len(idx1) + 16))(*idx1)
+    b = (ctypes.c_uint * (len(idx2) + 16))(*idx2)
+    L.fff_twosample_apply_permutation(ctypes.byref(px), ctypes.byref(pv), ctypes.byref(q1), ctypes.byref(r1), ctypes.byref(q2), ctypes.byref(r2), i, a, b)
+    return [float(v) for v in px._buf[:n]], [float(v) for v in pv._buf[:n]]
+
+
 def sec_twosample(ck, L):
     terms, metas = [], []
     smax = ck.n(8, 10)
@@ -454,6 +465,20 @@ def sec_twosample(ck, L):
                 terms.append("natlist_eqb (fff_twosample_apply_permutation 0%%nat %s %s %s %s) %s"
                              % (cnl(x1), cnl(x2), cNl(a), cNl(b), cnl([int(v) for v in px])))
                 metas.append(("tsapply", x1, x2, a, b))
+                # mixed-effects form: every subject has its OWN first-level variance (100 + label); the variance
+                # vector must undergo the same relabelling as the data, i.e. variances travel with their subjects
+                w1 = [100 + v for v in x1]
+                w2 = [100 + v for v in x2]
+                px2, pv2 = c_ts_apply_mfx(L, x1, x2, w1, w2, i, a, b)
+                ck.count(("ts-mfx-apply", n1, n2, m), bucket="twosample:apply-with-variances")
+                if px2 != px or [v - 100 for v in pv2] != px:
+                    ck.fail("twosample/apply-variances-do-not-follow-subjects",
+                            "apply_permutation(n1=%d, n2=%d, i=%d, idx1=%s, idx2=%s) with per-subject variances 100+label: data %s, variances %s"
+                            % (n1, n2, i, a, b, px2, pv2),
+                            {"n1": n1, "n2": n2, "magic": m, "i": i, "idx1": a, "idx2": b, "x1": x1, "x2": x2, "v1": w1, "v2": w2, "px": px2, "pv": pv2})
+                terms.append("natlist_eqb (fff_twosample_apply_permutation 0%%nat %s %s %s %s) %s"
+                             % (cnl(w1), cnl(w2), cNl(a), cNl(b), cnl([int(v) for v in pv2])))
+                metas.append(("tsapply", w1, w2, a, b))
             if len(seen) != total:
                 ck.fail("twosample/relabelling-missing", "n1=%d n2=%d: %d of %d relabellings reached" % (n1, n2, len(seen), total), {"n1": n1, "n2": n2})
     # larger groups, random magics, count mode
@@ -1443,10 +1468,28 @@ def sec_glm_twolevel(ck, L):
         x = rng.integers(-12, 13, size=n).astype(float) / 4
         x[0] += 0.75
         vx = rng.integers(1, 13, size=n).astype(float) / 8
+        # twosample.pyx sequence with a (mostly non-identity) magic number: permutation -> apply to data AND variances -> eval;
+        # reference: the statistic of the explicitly relabelled data (subjects keep their own, unequal variances)
+        tot = math.comb(n, n1)
+        magic = 0 if it % 5 == 0 else int(rng.integers(1, tot))
+        ie, _, ia, ib = c_ts_perm(L, n1, n2, magic)
+        x0, v0 = x.copy(), vx.copy()
+        pxl, pvl = c_ts_apply_mfx(L, x0[:n1].tolist(), x0[n1:].tolist(), v0[:n1].tolist(), v0[n1:].tolist(), ie, ia, ib)
+        xr, vr = x0.copy(), v0.copy()
+        for ja, jb in zip(ia, ib):                             # the relabelling by definition: subjects ja (group 1) and jb (group 2) change groups
+            xr[ja], xr[n1 + jb] = x0[n1 + jb], x0[ja]
+            vr[ja], vr[n1 + jb] = v0[n1 + jb], v0[ja]
+        if pxl != xr.tolist() or pvl != vr.tolist():
+            ck.fail("twosample/apply-variances-do-not-follow-subjects",
+                    "apply_permutation(magic=%d -> i=%d, idx1=%s, idx2=%s) gives data %s variances %s; relabelled data %s variances %s"
+                    % (magic, ie, ia, ib, pxl, pvl, xr.tolist(), vr.tolist()),
+                    {"n1": n1, "n2": n2, "magic": magic, "i": ie, "idx1": ia, "idx2": ib, "x": x0.tolist(), "vx": v0.tolist(), "px": pxl, "pv": pvl})
+        x, vx = np.array(pxl), np.array(pvl)
         st = L.fff_twosample_stat_mfx_new(n1, n2, 12)
         st.contents.niter = niter
         got = float(L.fff_twosample_stat_mfx_eval(st, ctypes.byref(vview(x)), ctypes.byref(vview(vx))))
         L.fff_twosample_stat_mfx_delete(st)
+        x, vx = xr, vr                                         # the reference below works on the explicitly relabelled sample
         g = [1.0] * n1 + [0.0] * n2
         X = [[1.0, gi] for gi in g]
         PX = [[0.0] * n1 + [1.0 / n2] * n2, [1.0 / n1] * n1 + [-1.0 / n2] * n2]
@@ -1458,8 +1501,9 @@ def sec_glm_twolevel(ck, L):
         ref = sgn(s1[0][1]) * math.sqrt(max(2.0 * (ll1 - ll0), 0.0))
         ck.count(("ts-mfx", it), bucket="twosample:student_mfx")
         if not (abs(got - ref) <= 1e-8 * max(1.0, abs(ref))):
-            ck.fail("twosample/student_mfx-not-likelihood-ratio", "two-sample student_mfx(n1=%d, n2=%d, niter=%d) = %r; sign(b1) sqrt(2 (ll - ll0)) = %r" % (n1, n2, niter, got, ref),
-                    {"n1": n1, "n2": n2, "niter": niter, "x": x.tolist(), "vx": vx.tolist(), "out": got, "expected": ref})
+            ck.fail("twosample/student_mfx-not-likelihood-ratio", "two-sample student_mfx(n1=%d, n2=%d, niter=%d) after magic %d = %r; statistic of the explicitly relabelled data sign(b1) sqrt(2 (ll - ll0)) = %r" % (n1, n2, niter, magic, got, ref),
+                    {"n1": n1, "n2": n2, "niter": niter, "magic": magic, "x_before_relabelling": x0.tolist(), "vx_before_relabelling": v0.tolist(),
+                     "x": x.tolist(), "vx": vx.tolist(), "out": got, "expected": ref})
 
     def show(t):
         return "(let r := glm2_run %s %s %s %s %s in (glm2_s2 r, g_b r))" % (cqmat(t[1]), cqmat(t[2]), cnat(t[3]), cql(t[4]), cql(t[5]))
